@@ -360,6 +360,14 @@ TickitWindow* tickit_window_new_root2(Tickit *t, TickitTerm *term)
   return ROOT_AS_WINDOW(root);
 }
 
+/* The toplevel instance is being destroyed; a root window that the application
+ * still holds a reference on must not use it any more */
+void tickit_window_forget_tickit(TickitWindow *win)
+{
+  if(win->is_root)
+    WINDOW_AS_ROOT(win)->tickit = NULL;
+}
+
 TickitWindow *tickit_window_new_root(TickitTerm *tt)
 {
   return tickit_window_new_root2(NULL, tt);
